@@ -8,6 +8,7 @@ import (
 	"encoding/binary"
 	"math"
 	"math/rand"
+	"os"
 	"sync"
 	"testing"
 	"time"
@@ -179,48 +180,64 @@ func TestVerifWire(t *testing.T) {
 			}
 		}
 	}
-	// the same builders behind a real PUB socket, received on a SUB socket
-	for _, kind := range []string{"record", "summary"} {
-		port := vFreePort("tcp")
-		conv := messageRecords
-		if kind == "summary" {
-			conv = messageSummaries
-		}
-		ch, err := startSocket(port, conv)
-		if err != nil {
-			t.Fatal(err)
-		}
-		sub, err := zmq4.NewSocket(zmq4.SUB)
-		if err != nil {
-			t.Fatal(err)
-		}
-		sub.SetSubscribe("")
-		sub.SetRcvhwm(10000)
-		if err = sub.Connect("tcp://localhost:" + itoa(port)); err != nil {
-			t.Fatal(err)
+	// the same records through the real publishers: DataPublisher.SetPubRecords / SetPubSummaries open the PUB sockets
+	// (VERIF_REAL_ZMQ=1: TestMain leaves the publication channels to the code), PublishData hands slices to the two
+	// publisher goroutines, SUB sockets receive.  Single-record slices first, then slices with several records of
+	// DIFFERENT lengths and channels, as PublishData gets them for one segment of edge-multi variable-length records:
+	// every message must describe its own record.
+	if os.Getenv("VERIF_REAL_ZMQ") != "" {
+		Ports.Trigs, Ports.Summaries = vFreePort("tcp"), vFreePort("tcp")
+		dp := &DataPublisher{}
+		dp.SetPubRecords()
+		dp.SetPubSummaries()
+		subs := map[string]*zmq4.Socket{}
+		for kind, port := range map[string]int{"record": Ports.Trigs, "summary": Ports.Summaries} {
+			sub, err := zmq4.NewSocket(zmq4.SUB)
+			if err != nil {
+				t.Fatal(err)
+			}
+			sub.SetSubscribe("")
+			sub.SetRcvhwm(10000)
+			if err = sub.Connect("tcp://localhost:" + itoa(port)); err != nil {
+				t.Fatal(err)
+			}
+			subs[kind] = sub
 		}
 		time.Sleep(400 * time.Millisecond)
+		recvOne := func(sub *zmq4.Socket) [][]byte {
+			deadline := time.Now().Add(2 * time.Second)
+			for time.Now().Before(deadline) {
+				if p, err := sub.RecvMessageBytes(zmq4.DONTWAIT); err == nil {
+					return p
+				}
+				time.Sleep(time.Millisecond)
+			}
+			return nil
+		}
 		m := 40
 		if m > len(recs) {
 			m = len(recs)
 		}
-		for k := 0; k < m; k++ {
-			ch <- []*DataRecord{recs[k]}
-			var parts [][]byte
-			deadline := time.Now().Add(2 * time.Second)
-			for time.Now().Before(deadline) {
-				p, err := sub.RecvMessageBytes(zmq4.DONTWAIT)
-				if err == nil {
-					parts = p
-					break
-				}
-				time.Sleep(time.Millisecond)
+		send := func(batch []*DataRecord, via string) {
+			if err := dp.PublishData(batch); err != nil {
+				t.Fatal(err)
 			}
-			id++
-			wiEmit(id, kind, "zmq", recs[k], parts)
+			for _, kind := range []string{"record", "summary"} {
+				for k := range batch {
+					id++
+					wiEmit(id, kind, via, batch[k], recvOne(subs[kind]))
+				}
+			}
 		}
-		close(ch)
-		sub.Close()
+		for k := 0; k < m; k++ {
+			send([]*DataRecord{recs[k]}, "zmq")
+		}
+		for b := 0; b+5 <= m; b += 5 {
+			send(recs[b:b+5], "zmq-batch")
+		}
+		for _, sub := range subs {
+			sub.Close()
+		}
 	}
 }
 
